@@ -12,7 +12,9 @@ mod plan;
 mod prng;
 mod refnat;
 mod regs;
+mod scn_c09bytes;
 mod scn_c09iter;
+mod scn_c11;
 mod scn_c17;
 mod scn_c18;
 mod scn_hist;
@@ -44,6 +46,8 @@ pub static SCENARIOS: &[Scenario] = &[
         gen: scn_c09iter::gen,
         exec: scn_c09iter::exec,
     },
+    Scenario { name: "c09bytes", property: "C09", gen: scn_c09bytes::gen, exec: scn_c09bytes::exec },
+    Scenario { name: "c11", property: "C11", gen: scn_c11::gen, exec: scn_c11::exec },
     Scenario { name: "c04", property: "C04", gen: scn_hist::gen_c04, exec: scn_hist::exec_c04 },
     Scenario { name: "c14h", property: "C14", gen: scn_hist::gen_c14h, exec: scn_hist::exec_c14h },
     Scenario { name: "c14f", property: "C14", gen: scn_hist::gen_c14f, exec: scn_hist::exec_c14f },
